@@ -73,7 +73,7 @@ def gen(cls, idx, rng, tier):
         if dead[0] == (0, 0):
             dead = []
     chips = [(x, y) for x in range(w) for y in range(h) if (x, y) not in dead]
-    buf = rng.choice([16, 64, 128, 256])
+    buf = rng.choice([16, 64, 128, 256, 256, 512, 1024])
     if cls == "big":
         buf = rng.choice([16, 16, 64])
     nbin = rng.randint(2, 3) if cls == "multi" else rng.choice([1, 1, 2])
